@@ -106,4 +106,51 @@ def runActs (B : Nat → Nat) (N : Nat) (valid : File → Bool) : Sys → List A
 
 def init (f0 : Option File) : Sys := ⟨f0, fun _ => .start, none⟩
 
+/-! ### The same system when the two calls write *different* byte strings
+
+Call `i` writes `B i` (`N i` bytes): two `transfer_model` calls with different options, or on
+sources edited in between. -/
+
+def stepG (B : Bool → Nat → Nat) (N : Bool → Nat) (valid : File → Bool) (s : Sys) : Act → Option Sys
+  | .load i =>
+    match s.ph i with
+    | .start =>
+      let hit := match s.file with | none => false | some f => valid f
+      some { s with ph := setPh s.ph i (if hit then .done true else .missed) }
+    | _ => none
+  | .openW i =>
+    match s.ph i with
+    | .missed => some { file := some File.empty, ph := setPh s.ph i (.writing 0), last := some i }
+    | _ => none
+  | .write i n =>
+    match s.ph i with
+    | .writing pos =>
+      if 0 < n ∧ pos + n ≤ N i then
+        some { s with file := some ((s.file.getD File.empty).writeAt pos n (B i)),
+                      ph := setPh s.ph i (.writing (pos + n)) }
+      else none
+    | _ => none
+  | .close i =>
+    match s.ph i with
+    | .writing pos => if pos = N i then some { s with ph := setPh s.ph i (.done false) } else none
+    | _ => none
+  | .replace i =>
+    match s.ph i with
+    | .missed => some { file := some (File.full (B i) (N i)), ph := setPh s.ph i (.done false), last := some i }
+    | _ => none
+
+def runActsG (B : Bool → Nat → Nat) (N : Bool → Nat) (valid : File → Bool) : Sys → List Act → Option Sys
+  | s, [] => some s
+  | s, a :: rest => match stepG B N valid s a with
+    | none => none
+    | some s' => runActsG B N valid s' rest
+
+/-- the schedule uses the atomic writer only (temporary file + rename), never in-place writes -/
+def atomicOnly : List Act → Bool
+  | [] => true
+  | .openW _ :: _ => false
+  | .write _ _ :: _ => false
+  | .close _ :: _ => false
+  | _ :: rest => atomicOnly rest
+
 end PymocaVerif.CacheFile
